@@ -24,3 +24,64 @@ def gen_boolweight(items):
     items.append(single_clause_guard)
     items.append(lambda: f'def fp_boolean_weight_scorer : String := "{fingerprint(f, "scorer")}"')
     items.append(lambda: f'def fp_boolean_weight_complex_scorer : String := "{fingerprint(f, "complex_scorer")}"')
+
+
+@module('PhraseScorer')
+def gen_phrasescorer(items):
+    f = 'src/query/phrase_query/phrase_scorer.rs'
+
+    def slops_reset():
+        # compute_phrase_match must start by loading the first term's positions and, when a slop is
+        # set, clearing the per-document `left_slops` state (otherwise the carried slops of the
+        # previous document leak into the next one)
+        body = ' '.join(fn_body(f, 'compute_phrase_match').split())
+        pat = (r'^\{ self\.intersection_docset \.docset_mut_specialized\(0\) \.positions\(&mut self\.left_positions\); '
+               r'if self\.has_slop\(\) \{ self\.left_slops\.clear\(\); \} \} for i in 1\.\.self\.num_terms - 1 \{')
+        if not re.search(pat, body):
+            raise Fail(f'{f}: compute_phrase_match no longer starts with loading term 0 and `if self.has_slop() {{ self.left_slops.clear(); }}`: {body[:200]!r}')
+        return D('PHRASE_LEFT_SLOPS_RESET_AT_START', 1, 'compute_phrase_match clears left_slops before folding the terms of a document')
+    items.append(slops_reset)
+    items.append(lambda: f'def fp_compute_phrase_match : String := "{fingerprint(f, "compute_phrase_match")}"')
+    items.append(lambda: f'def fp_intersection_count_with_carrying_slop : String := "{fingerprint(f, "intersection_count_with_carrying_slop")}"')
+    items.append(lambda: f'def fp_intersection_exists_with_slop : String := "{fingerprint(f, "intersection_exists_with_slop")}"')
+
+
+@module('JsonRange')
+def gen_jsonrange(items):
+    f = 'src/query/range_query/range_query_fastfield.rs'
+
+    def norm(name):
+        return ' '.join(fn_body(f, name).split())
+
+    def u64_lower():
+        body = norm('search_on_json_numerical_field')
+        if 'return TransformBound::NewBound(Bound::Excluded(i64::MAX as u64));' in body:
+            return D('JSON_U64_LOWER_ON_I64_NO_HITS', 0, 'u64 lower bound > i64::MAX on an i64 column: Excluded(i64::MAX as u64) (pinned)')
+        if 'return TransformBound::NewBound(Bound::Excluded(i64::MAX.to_u64()));' in body:
+            return D('JSON_U64_LOWER_ON_I64_NO_HITS', 1, 'u64 lower bound > i64::MAX on an i64 column: Excluded(i64::MAX.to_u64())')
+        raise Fail(f'{f}: search_on_json_numerical_field: the u64-bound-above-i64::MAX lower closure has an unknown shape')
+    items.append(u64_lower)
+
+    def f64_below():
+        body = norm('transform_from_f64_bounds')
+        if 'if upper_bound < T::min().to_f64() { return TransformBound::NewBound(Bound::Unbounded); }' in body:
+            return D('JSON_F64_UPPER_BELOW_MIN_NO_HITS', 0, 'f64 upper bound below T::min: Unbounded (pinned)')
+        if 'if upper_bound < T::min().to_f64() { return TransformBound::NewBound(Bound::Excluded(T::min().to_u64())); }' in body:
+            return D('JSON_F64_UPPER_BELOW_MIN_NO_HITS', 1, 'f64 upper bound below T::min: Excluded(T::min().to_u64())')
+        raise Fail(f'{f}: transform_from_f64_bounds: the upper-bound-below-minimum case has an unknown shape')
+    items.append(f64_below)
+
+    def f64_round():
+        body = norm('transform_from_f64_bounds')
+        lo_t = 'Bound::Included(T::from_f64(lower_bound.trunc()).to_u64())' in body
+        hi_t = 'Bound::Included(T::from_f64(upper_bound.trunc()).to_u64())' in body
+        lo_c = 'Bound::Included(T::from_f64(lower_bound.ceil()).to_u64())' in body
+        hi_f = 'Bound::Included(T::from_f64(upper_bound.floor()).to_u64())' in body
+        if lo_t and hi_t and not lo_c and not hi_f:
+            return D('JSON_F64_FRACTIONAL_ROUNDS_INWARD', 0, 'fractional f64 bounds: Included(trunc) on both ends (pinned)')
+        if lo_c and hi_f and not lo_t and not hi_t:
+            return D('JSON_F64_FRACTIONAL_ROUNDS_INWARD', 1, 'fractional f64 bounds: lower ceil, upper floor')
+        raise Fail(f'{f}: transform_from_f64_bounds: rounding of fractional bounds has an unknown shape')
+    items.append(f64_round)
+    items.append(lambda: f'def fp_search_on_json_numerical_field : String := "{fingerprint(f, "search_on_json_numerical_field")}"')
+    items.append(lambda: f'def fp_transform_from_f64_bounds : String := "{fingerprint(f, "transform_from_f64_bounds")}"')
